@@ -618,10 +618,11 @@ func setFromParamVal(buf []byte, pf *PFromBody) ErrorHdr {
 			if pf.vend-i <= 4 {
 				var u, d uint64
 				u, err = pUInt64Val(buf[pf.vstart:i])
-				if err == 0 && i < pf.vend {
+				// (a too big integer part is saturated => caught below)
+				if (err == 0 || err == ErrHdrNumTooBig) && i < pf.vend {
 					d, err = pUInt64Val(buf[i+1 : pf.vend])
 				}
-				if err == 0 {
+				if err == 0 || err == ErrHdrNumTooBig {
 					if u > 1 || d > 999 || (u == 1 && d > 0) {
 						err = ErrHdrValBad
 						pf.ParamErr = err
@@ -663,19 +664,24 @@ func setFromParamVal(buf []byte, pf *PFromBody) ErrorHdr {
 	return err
 }
 
+// pUInt64Val converts a decimal string to uint64.
+// A value that does not fit saturates at the maximum uint64 (and
+// ErrHdrNumTooBig is returned).
 func pUInt64Val(b []byte) (n uint64, err ErrorHdr) {
-
-	if len(b) > 20 {
-		err = ErrHdrValTooLong
-		return
-	}
 
 	for _, c := range b {
 		if c < '0' || c > '9' {
 			err = ErrHdrValNotNumber
 			return
 		}
-		n = n*10 + uint64(c-'0')
+		d := uint64(c - '0')
+		if err != 0 || n > (^uint64(0)-d)/10 {
+			// overflow: saturate, but keep checking the remaining chars
+			n = ^uint64(0)
+			err = ErrHdrNumTooBig
+			continue
+		}
+		n = n*10 + d
 	}
 
 	return
